@@ -2,6 +2,7 @@ import Driver.Tiny
 import Driver.Policy
 import Driver.Cache
 import Driver.Keys
+import Driver.Hist
 /-! `smdriver <component>`: replays a line-protocol trace from stdin through the model. -/
 open Driver
 
@@ -48,6 +49,17 @@ partial def loopKeys (h : IO.FS.Stream) (tl : Tally) : IO Tally := do
     let (act, ans) := splitBar line
     loopKeys h (stepKeys tl act ans)
 
+partial def loopHist (h : IO.FS.Stream) (st : HistSt) (tl : Tally) : IO Tally := do
+  let line ← h.getLine
+  if line.isEmpty then return tl
+  let line := line.trimAscii.toString
+  if line.isEmpty || line.startsWith "#" then loopHist h st tl
+  else
+    let tl := { tl with lines := tl.lines + 1 }
+    let (act, ans) := splitBar line
+    let (st, tl) := stepHist st tl act ans
+    loopHist h st tl
+
 def main (args : List String) : IO UInt32 := do
   let stdin ← IO.getStdin
   match args with
@@ -61,6 +73,10 @@ def main (args : List String) : IO UInt32 := do
     return (if tl.diverge + tl.monitorFail + tl.guardFail + tl.bad == 0 then 0 else 1)
   | ["keys"] =>
     let tl ← loopKeys stdin {}
+    tl.report
+    return (if tl.diverge + tl.monitorFail + tl.guardFail + tl.bad == 0 then 0 else 1)
+  | ["hist"] =>
+    let tl ← loopHist stdin {} {}
     tl.report
     return (if tl.diverge + tl.monitorFail + tl.guardFail + tl.bad == 0 then 0 else 1)
   | ["cache"] =>
